@@ -52,6 +52,11 @@ def fault_pool(ctx):
         sp = gen.make_spec(rng, D=rng.choice([1, 2]), geom="box", mode=mode, cons=None, target="quad")
         sp["options"] = {"n_search": 32, "max_fun_evals": (sp["D"] + 24) if mode == "det" else 58, "noise_final_samples": 3, "use_slice_sampler": True}
         specs.append(sp)
+    # ... combined with refits that start from two hyper-parameter vectors (double_refit), and double refits with the default restart
+    for mode, opts in (("det", {"use_slice_sampler": True, "double_refit": True}), ("decl", {"use_slice_sampler": True, "double_refit": True}), ("det", {"double_refit": True})):
+        sp = gen.make_spec(rng, D=rng.choice([1, 2]), geom="box", mode=mode, cons=None, target="quad")
+        sp["options"] = dict({"n_search": 32, "max_fun_evals": (sp["D"] + 24) if mode == "det" else 58, "noise_final_samples": 3}, **opts)
+        specs.append(sp)
     # the accepted forms of the noise nudge of the retry loop (unset, empty, one entry, two entries), deterministic and noisy
     for mode, nn in (("det", "None"), ("det", "np.array([])"), ("decl", "np.array([1.0])"), ("det", "np.array([0.5])")) + \
             (() if ctx.quick else (("he", "None"), ("decl", "np.array([])"), ("det", "np.array([0.5, 0.1])"), ("he", "np.array([2.0])"))):
